@@ -14,13 +14,13 @@ from .common import CD, SLC, ckey
 P = "C18"
 PCCC = "pycomm3.cip.pccc"
 EXPLANATION = (
-    "Static rules D18.1-D18.8 (DESIGN.md section 5, C18): integer-typed address arithmetic of the binary-file bit form in linear "
+    "Static rules D18.1-D18.9 (DESIGN.md section 5, C18): integer-typed address arithmetic of the binary-file bit form in linear "
     "normal form (element = n // 16, bit = n % 16; true division is a distinct float atom); regex AST facts (re._parser) - every "
     "address pattern is applied so that the whole string must match, digit widths admit the checked ranges; every returned "
     "address record is dominated by the documented range tests of the fields it carries; file-type letters accepted by the "
     "grammar are total in the size/type/codec tables whose values equal the DF1 specification; _read_tag and _write_tag emit the "
     "same PCCC field sequence; mask+value construction and bit extraction; reply offsets derived from the connected reply layout; "
-    "rejected addresses raise RequestError before anything is sent. Decides which file/element/bit a request addresses; the "
+    "rejected addresses raise RequestError before anything is sent; every address record is marked bit/sub-element exactly when the address has one and reply decoding / mask construction decide bit-vs-word identically on every value such a record can hold. Decides which file/element/bit a request addresses; the "
     "controller's data table is outside."
 )
 ASSUMPTIONS = ["re compiles the patterns as re._parser parses them", "spec/pccc.json transcribes the DF1 manual correctly"]
